@@ -60,6 +60,58 @@ func verifHarnessVarPool(k int, maxLen int, hard []string) {
 	verifReach("end")
 }
 
+// verifHarnessParamNames: the same obligations with names requested the way the generator
+// requests them, through InjectorParam.Name and InjectorParam.ChannelName (in either order),
+// so that whatever allocator entry points those methods use are covered.
+func verifHarnessParamNames(k int, maxLen int, hard []string) {
+	p := NewVarPool()
+	var outs, users []string
+	var usersBefore []int
+	for i := 0; i < k; i++ {
+		switch verifChoice(3) {
+		case 0:
+			u := verifNondetString()
+			verifAssume(verifIsIdent(u, false, maxLen))
+			verifAssume(!verifIsKeyword(u))
+			p.Reserve(u)
+			users = append(users, u)
+		case 1: // a value without done-channel
+			b := verifNondetString()
+			verifAssume(verifIsIdent(b, true, maxLen))
+			verifAssume(b != "_")
+			prm := NewInjectorParam([]types.Type{verifMakeType(b)}, false)
+			prm.Ref(false)
+			outs = append(outs, prm.Name(p))
+			usersBefore = append(usersBefore, len(users))
+		case 2: // a value awaited from another goroutine: variable and done-channel
+			b := verifNondetString()
+			verifAssume(verifIsIdent(b, true, maxLen))
+			verifAssume(b != "_")
+			prm := NewInjectorParam([]types.Type{verifMakeType(b)}, false)
+			prm.Ref(true)
+			if verifChoice(2) == 0 {
+				outs = append(outs, prm.Name(p), prm.ChannelName(p))
+			} else {
+				outs = append(outs, prm.ChannelName(p), prm.Name(p))
+			}
+			usersBefore = append(usersBefore, len(users), len(users))
+		}
+	}
+	for i := range outs {
+		verifAssert(!verifIsReserved(outs[i]), "reserved")
+		for _, u := range users[:usersBefore[i]] {
+			verifAssert(outs[i] != u, "user-name")
+		}
+		for j := 0; j < i; j++ {
+			verifAssert(outs[i] != outs[j], "dup")
+		}
+		for _, h := range hard {
+			verifAssert(outs[i] != h, "hardcoded")
+		}
+	}
+	verifReach("end")
+}
+
 func verifIsKeyword(s string) bool {
 	r := false
 	for _, id := range goReservedKeywords {
